@@ -921,6 +921,39 @@ func mutateTrace(rng *rand.Rand, lines []string) []hxlib.Case {
 			}
 		}
 	}
+	// a service worker that entered its back-off wait while the module was stopping (its function answered the
+	// cancellation with an error / a panic) is run again: a copy of its last function entry right after the return
+	for _, i := range find("swReturn") {
+		f := strings.Fields(body[i])
+		if !strings.Contains(body[i], " cls=b ") || len(f) < 6 {
+			continue
+		}
+		mod, g := f[1], f[len(f)-2]
+		stopping, enter := false, -1
+		for k := 0; k < i; k++ {
+			fk := strings.Fields(body[k])
+			if len(fk) < 4 || fk[0] != "e" || fk[1] != mod {
+				continue
+			}
+			switch fk[2] {
+			case "sFlag":
+				stopping = true
+			case "startBegin":
+				stopping = false
+			case "workEnter":
+				if fk[len(fk)-2] == g {
+					enter = k
+				}
+			}
+		}
+		if stopping && enter >= 0 {
+			b := append([]string{}, body[:i+1]...)
+			b = append(b, body[enter])
+			b = append(b, body[i+1:]...)
+			mk("rerun-after-late-backoff", b)
+			break
+		}
+	}
 	if ix := find("dec"); len(ix) > 0 {
 		// a finisher that skips the decrement: its check reads must then fail or the wake-up is not enabled
 		i := ix[rng.Intn(len(ix))]
